@@ -29,7 +29,7 @@ theorem fastmatch_valid_form (peaks : List Peak) (z0 a0 b0 : V2) (tol mw : ℚ) 
     split at h
     · cases h
     · split at h
-      · cases h
+      · split at h <;> cases h
       · rename_i z1 a1 b1 hw1
         by_cases hd1 : det2 a1 b1 = 0
         · unfold matchAll at h
